@@ -89,9 +89,21 @@ def histories(ck):
                 inc, b = rng.choice(variants(i, n))
                 h.append((kind, i, inc, b))
         out.append(h)
+    # a text the host was given, replaced on disk while the file is only an include, then given again unchanged: what the host
+    # remembers about a file and what the database holds must not drift apart (directed, every pair of files)
+    for r in range(nfiles):
+        for b in range(nfiles):
+            if b == r:
+                continue
+            x, y = "class C%d;" % b, "class C%d { int changed%d = 1; }" % (b, b)
+            pre = [("edit", i, (), "class C%d;" % i) for i in range(nfiles)] + [("edit", b, (), x), ("editroot", r, (b,), "class C%d;" % r)]
+            out.append(pre + [("disk", b, (), y), ("editroot", b, (), x)])
+            out.append(pre + [("disk", b, (), y), ("edit", b, (), x), ("root", r, None, None)])
+            out.append(pre + [("disk", b, (), y), ("editroot", r, (), "class C%d;" % r), ("disk", b, (), x), ("editroot", b, (), x), ("disk", b, (), y), ("root", r, None, None)])
+            out.append(pre + [("disk", b, (), y), ("disk", b, (), x), ("editroot", b, (), y), ("editroot", r, (b,), "class C%d;" % r)])
     # files that change on disk behind the host's back (included files that are not open), interleaved with edits and root
     # switches; such a history ends with the client sending a document and the server selecting it as root
-    for _ in range(250 if quick else 30000):
+    for _ in range(400 if quick else 30000):
         n = rng.choice([2, 3, 4])
         r0 = rng.randrange(n)
         # every second such history starts without one of the files: includes of it resolve nowhere until it appears on disk
